@@ -302,7 +302,7 @@ type c09stat struct {
 	// that the handler left neither closed nor reset (observed around the handler, on the server)
 	StreamsHandled, StreamsAbandoned int64
 	AbandonedProtocols               []string
-	Goroutines                                     int
+	Goroutines                       int
 }
 
 // c09held is what the server still holds: accessors not closed, memory and streams in the shrex
